@@ -81,7 +81,7 @@ def main(claimed):
         "engines": [{"name": "simkit", "path": "/verif/simkit", "serves_properties": claimed,
                      "kind_free_text": "deterministic simulator: seeded trace generator, runners with reference models / fresh twins, fault injectors (faulty component subclasses, None operators, FP traps, sys.settrace line crashes, torn/corrupted documents), pristine-process shrinker, exact replay"}],
         "checks": checks,
-        "notes": "Technique family: deterministic simulation with fault injection (DESIGN.md; section 9 is the as-built record). check.py exit codes: 0 held, 1 violation (+VIOLATION line), 2 harness error/timeout, 3 replay mismatch. Honours VERIF_SEED, VERIF_TIER, VERIF_REPO. No source hooks in /repo; ten unguarded 'fix:' commits (D1-D10) repair genuine defects the checks found (known_findings.json lists them as fixed); two genuine defects with one root (recursion over the expression tree of a very long rule) are recorded as open known findings instead - F1 (C16: evaluating a rule of about a thousand chained propositions raises RecursionError) and F2 (C13: Engine.copy() raises RecursionError from about 250) - and are reported as KNOWN-FINDING lines with exit 0. Self-tests: selftest/determinism.py, selftest/sensitivity.py (59 mutants incl. 4 silent controls and the reverts of D1-D10), selftest/known_findings_test.py; tools/reseed.py re-runs the 190 sub-agent changes (14 rounds) kept under seeded/.",
+        "notes": "Technique family: deterministic simulation with fault injection (DESIGN.md; section 9 is the as-built record). check.py exit codes: 0 held, 1 violation (+VIOLATION line), 2 harness error/timeout, 3 replay mismatch. Honours VERIF_SEED, VERIF_TIER, VERIF_REPO. No source hooks in /repo; ten unguarded 'fix:' commits (D1-D10) repair genuine defects the checks found (known_findings.json lists them as fixed); two genuine defects with one root (recursion over the expression tree of a very long rule) are recorded as open known findings instead - F1 (C16: evaluating a rule of about a thousand chained propositions raises RecursionError) and F2 (C13: Engine.copy() raises RecursionError from about 250) - and are reported as KNOWN-FINDING lines with exit 0. Self-tests: selftest/determinism.py, selftest/sensitivity.py (59 mutants incl. 4 silent controls and the reverts of D1-D10), selftest/known_findings_test.py; tools/reseed.py re-runs the 205 sub-agent changes (15 rounds) kept under seeded/.",
         "not_applicable": na,
     }
     with open(os.path.join(HERE, "MANIFEST.json"), "w") as f:
